@@ -206,7 +206,7 @@ Pool(k) == IF Mode = "single" THEN AllCmds ELSE IF Mode = "clock" THEN ClockCmds
            ELSE HistCmds
 SeedSet == IF Mode = "single" THEN 1..NSeeds
            ELSE IF Mode = "clock" THEN {10 * lay + d : lay \in 0..5, d \in 0..4}
-           ELSE IF Mode = "pairs" THEN {3, 4, 5, 7, 10, 17, 22}
+           ELSE IF Mode = "pairs" THEN {3, 4, 5, 7, 10, 12, 17, 22, 24}
            ELSE IF Mode = "long" THEN {1, 4, 7, 8, 11, 13, 22, 23}
            ELSE {3 + (SeedN % 3), 22}
 
